@@ -788,14 +788,25 @@ class LoadMixin(AbstractLoaderGenerator, BaseLoadHook):
             args = get_args(type_ann)
 
             # Special case for Optional[x], which is actually Union[x, None]
-            if len(args) == 2 and NoneType in args:
+            #
+            # Note: a recursive type, e.g. `type T = list[T] | None`, leads
+            # back here while `x` is being processed. The expression below
+            # can't refer to itself, so leave an `Optional[x]` that recurs
+            # to `load_to_union`, which generates a recursion-safe function.
+            if (len(args) == 2 and NoneType in args
+                    and args not in (in_progress := extras.setdefault(
+                        'optionals_in_progress', []))):
                 # `None` can come first, as in `Union[None, x]`
                 new_tp = tp.replace(
                     origin=args[1] if args[0] is NoneType else args[0],
                     args=None, name=None)
                 new_tp.in_optional = True
 
-                string = cls.get_string_for_annotation(new_tp, extras)
+                in_progress.append(args)
+                try:
+                    string = cls.get_string_for_annotation(new_tp, extras)
+                finally:
+                    in_progress.pop()
 
                 return f'None if {tp.v()} is None else {string}'
 
